@@ -375,4 +375,99 @@ theorem term_fanout {Q : Res → Prop} (hQ : TermFstClosed Q) (root : Val) (sp :
   rw [term_idx_step f'' root sp false rl par found j T hT cls xs hpv hj]
   exact hsub j hj f'' (by omega) (by omega)
 
+/-! ### single steps, for any token with a known parse -/
+
+/-- a name token on a list: `[*]` is inserted in front -/
+theorem term_key_list_step (f : Nat) (root : Val) (sp : Pos) (entry rl : Bool) (par : PRef) (found tok name : Str) (idx : Idx)
+    (rest : List Str) (cls : Cls) (xs : List Val) (hpv : valOf root par = some (.list cls xs))
+    (hsplit : splitNameIndex tok = .ok (name, idx)) (hne : name ≠ []) (hup : name ≠ ['.', '.']) :
+    findD (f + 1) root sp false entry (tok :: rest) par rl found
+      = findD f root sp false false (bracket ['*'] :: tok :: rest) par rl found := by
+  have h0 : name.isEmpty = false := isEmpty_false_of_ne hne
+  rw [findD]
+  simp only [Bool.false_and, Bool.false_eq_true, if_false, hpv, hsplit, h0, Bool.not_false, hup, if_true, isList]
+
+/-- where a found key continues, by the form of its index -/
+def termKeyCont (f : Nat) (root : Val) (sp : Pos) (rl : Bool) (par : PRef) (found name : Str) (rest : List Str) :
+    Idx → PyM (Val × Res)
+  | .none => findD f root sp false false rest (childRef root par (.key name)) rl (found ++ slash ++ name)
+  | .str s => findD f root sp false false (bracket s :: rest) (childRef root par (.key name)) rl (found ++ slash ++ name)
+  | .cond k op v =>
+    findD f root sp false false (bracket (k ++ op ++ ['\''] ++ condValStr v ++ ['\'']) :: rest)
+      (childRef root par (.key name)) rl (found ++ slash ++ name)
+
+/-- a name token (not `..`, not `*`) on a dict -/
+theorem term_key_dict_step (f : Nat) (root : Val) (sp : Pos) (entry rl : Bool) (par : PRef) (found tok name : Str) (idx : Idx)
+    (rest : List Str) (c : Cls) (kvs : List (Str × Val)) (hpv : valOf root par = some (.dict c kvs))
+    (hsplit : splitNameIndex tok = .ok (name, idx)) (hne : name ≠ []) (hup : name ≠ ['.', '.']) (hstar : name ≠ ['*']) :
+    findD (f + 1) root sp false entry (tok :: rest) par rl found =
+      match lookup name kvs with
+      | Option.none =>
+        .ok (root, { parent := par, nameIdx := Option.none, value := Val.none, found := found, notFound := some (tok :: rest) })
+      | some cv =>
+        if rest.isEmpty && idx = .none then
+          .ok (root, { parent := par, nameIdx := some name, value := cv, found := found ++ slash ++ name, notFound := Option.none })
+        else termKeyCont f root sp rl par found name rest idx := by
+  have h0 : name.isEmpty = false := isEmpty_false_of_ne hne
+  rw [findD]
+  simp only [Bool.false_and, Bool.false_eq_true, if_false, hpv, hsplit, h0, Bool.not_false, hup, if_true, isList, isDict,
+    Bool.not_true, hstar]
+  cases idx <;> rfl
+
+/-- the possible outcomes of a pure index step `[s]` with `n0eval s = i` -/
+theorem term_pure_idx (f : Nat) (root : Val) (sp : Pos) (entry rl : Bool) (par : PRef) (found tok s : Str) (i : Int)
+    (rest : List Str) (pv : Val) (hpv : valOf root par = some pv)
+    (hsplit : splitNameIndex tok = .ok ([], .str s)) (hne : s ≠ []) (hnew : s ≠ sNew) (hstar : s ≠ ['*'])
+    (hev : n0eval s = .ok (.int i)) :
+    ∃ par', ((isList pv = true ∧ par' = par) ∨ (isList pv = false ∧ par' = .wrap par)) ∧
+      ((∃ e, findD (f + 1) root sp false entry (tok :: rest) par rl found = .error e ∧ e ≠ .OutOfFuel) ∨
+       (∃ v nf, findD (f + 1) root sp false entry (tok :: rest) par rl found =
+          .ok (root, { parent := par', nameIdx := some (bracket (intStr i)), value := v, found := found, notFound := nf })) ∨
+       (∃ n, rest ≠ [] ∧ findD (f + 1) root sp false entry (tok :: rest) par rl found =
+          findD f root sp false false rest (childRef root par' (.idx n)) rl (found ++ bracket (intStr i)))) := by
+  have h0 : s.isEmpty = false := isEmpty_false_of_ne hne
+  cases pv with
+  | list c xs =>
+    refine ⟨par, Or.inl ⟨rfl, rfl⟩, ?_⟩
+    rw [findD]
+    simp only [Bool.false_and, Bool.false_eq_true, if_false, hpv, hsplit, List.isEmpty_nil, Idx.truthy, h0, Bool.not_false,
+      Bool.and_false, Bool.not_true, hnew, hstar, hev]
+    split
+    · exact Or.inr (Or.inl ⟨_, _, rfl⟩)
+    · split
+      · exact Or.inl ⟨_, rfl, by decide⟩
+      · split
+        · exact Or.inr (Or.inl ⟨_, _, rfl⟩)
+        · rename_i n _ hr
+          exact Or.inr (Or.inr ⟨n, by intro h; subst h; simp at hr, rfl⟩)
+  | _ =>
+    refine ⟨.wrap par, Or.inr ⟨rfl, rfl⟩, ?_⟩
+    rw [findD]
+    simp only [Bool.false_and, Bool.false_eq_true, if_false, hpv, hsplit, List.isEmpty_nil, Idx.truthy, h0, Bool.not_false,
+      Bool.and_false, Bool.not_true, hnew, hstar, hev]
+    split
+    · exact Or.inr (Or.inl ⟨_, _, rfl⟩)
+    · split
+      · exact Or.inl ⟨_, rfl, by decide⟩
+      · split
+        · exact Or.inr (Or.inl ⟨_, _, rfl⟩)
+        · rename_i n _ hr
+          exact Or.inr (Or.inr ⟨n, by intro h; subst h; simp at hr, rfl⟩)
+
+/-- the value behind the parent of a pure index step, and of the element below it -/
+theorem term_idx_parent {H W : Nat} (hW : 1 ≤ W) {root : Val} {par par' : PRef} {pv : Val} (hpv : valOf root par = some pv)
+    (hb : TermRef H W root par)
+    (hp : (isList pv = true ∧ par' = par) ∨ (isList pv = false ∧ par' = .wrap par)) :
+    TermRef H W root par' ∧ ∀ n c, valOf root (childRef root par' (.idx n)) = some c → termHgt c ≤ termHgt pv ∧ termHgt c ≤ H := by
+  rcases hp with ⟨_, rfl⟩ | ⟨hl, rfl⟩
+  · refine ⟨hb, fun n c hc => ?_⟩
+    have := term_childRef_hgt (hb pv hpv) hpv hc
+    omega
+  · have hw := TermRef_wrap hW hb hpv hl
+    refine ⟨hw, fun n c hc => ?_⟩
+    have hv : valOf root (.wrap par) = some (Val.list .plain [pv]) := by simp [valOf, hpv]
+    have := term_childRef_hgt (hw _ hv) hv hc
+    simp only [termHgt, termHgtL] at this
+    omega
+
 end N0.XPath
